@@ -21,3 +21,17 @@ def qual_of_char(char):
 def prob_of_qual(qual):
     """Convert phred-scaled quality integer into a probability of the call being correct."""
     return 1 - 10 ** (qual / -10)
+
+
+def qual_of_prob(prob, precision=6):
+    """Convert a probability of a call being correct into a phred-scaled quality integer."""
+    maximum = 1 - 0.1 ** precision
+    if np.shape(prob) == ():
+        if prob > maximum:
+            prob = maximum
+        else:
+            pass
+    else:
+        prob = np.array([maximum if p > maximum else p for p in prob])
+    prob = np.floor(prob * 10 ** precision) / 10 ** precision
+    return np.round(-10 * np.log10(1 - prob)).astype(int)
